@@ -71,6 +71,7 @@ Theorem C16_no_route_no_dial : forall ng s m p k,
 Proof. exact no_route_no_dial. Qed.
 Print Assumptions C16_no_route_no_dial.
 
+(* (unfolding lemma of call_outcome) *)
 Theorem C16_no_route_not_found : forall t ng ci p,
   ci_upath ci = Some p -> lookup t ng (dsthost (ci_md ci)) p = None ->
   call_outcome t ng ci = (None, err_view code_not_found "no route found").
@@ -96,6 +97,8 @@ Print Assumptions C16_dsthost_several_ignored.
    for (host = the single dsthost value, else "" -- the code does not consult :authority --,
    path = the parsed full method path) under the prefix matcher and the configured
    GlobMatchingDisabled: for all tables and calls. *)
+(* (definitional: this is HOW the model composes C03's lookup; its tie to the code is the
+   correspondence run, the lookup and call classes) *)
 Theorem C16_backend_is_c03_lookup : forall t noglob m p,
   icpt_lookup t noglob (Some m) (Some p) =
   Some (match Fabio.Model.Lookup.lookup (to_c03 t) (dsthost m) false p Fabio.Model.Lookup.MPrefix noglob with
@@ -147,21 +150,35 @@ Theorem C16_routed_target_in_table : forall t noglob host path ts,
 Proof. exact lookup_in_table. Qed.
 Print Assumptions C16_routed_target_in_table.
 
-(* Transparency, MODELLED-NOT-VERIFIED: the relay itself is mwitkow/grpc-proxy + grpc-go.  What
-   is proved is that the model's relay (forward loops with the header sent before the first
-   message) is the identity the property states; the harness checks the real relay against it. *)
-Theorem C16_relay_transparent_modelled : forall ci,
-  let sc := ci_script ci in
-  let (b, c) := relay ci in
-  bv_method b = ci_method ci /\ bv_md b = ci_md ci /\
-  (sc_mode sc <> 2 -> bv_msgs b = ci_msgs ci) /\
-  cv_msgs c = sc_msgs sc /\ cv_trl c = sc_trl sc /\ cv_code c = sc_code sc /\
-  (sc_code sc <> 0 -> cv_msg c = sc_msg sc) /\
-  (sc_msgs sc <> [] -> cv_hdr c = sc_hdr sc) /\
-  (sc_msgs sc = [] -> cv_hdr c = []).
+(* Transparency, MODELLED-NOT-VERIFIED: the relay itself is mwitkow/grpc-proxy + grpc-go.  [transparent]
+   (Proofs/GrpcPool.v) is the property's clause on what the two ends see, stated without the
+   relay's mechanism: per direction the frames that arrive are the frames sent, in order (the
+   backend has the prefix it chose to read); every custom (non-reserved) metadata key arrives
+   with the same values in the same order and nothing else arrives; trailers likewise, headers
+   whenever the backend sends a message; the status code as it is, and the message of every
+   non-OK status.  What is proved is that the model's relay -- forwarding loops frame by frame,
+   header sent just before the first message, metadata copied by the director and filtered by
+   the client transport, status returned as received -- meets it; the harness checks the real
+   relay (through the real newGrpcProxy) against the model. *)
+Theorem C16_relay_transparent_modelled : forall ci, transparent ci (fst (relay ci)) (snd (relay ci)).
 Proof. exact relay_transparent. Qed.
 Print Assumptions C16_relay_transparent_modelled.
 
+Theorem C16_relay_transparent_nonvacuous :
+  let ci := mkcallin [(bs "user-agent", [bs "x"]); (bs "k", [bs "1"; bs "2"])] (bs "/p.S/M") (Some (bs "/p.S/M"))
+                     [bs "a"; bs "b"] (mkscript 0 [(bs "h", [bs "v"])] [bs "r"] [(bs "t", [[]])] 5 (bs "gone")) in
+  bv_md (fst (relay ci)) = [(bs "k", [bs "1"; bs "2"])] /\ bv_msgs (fst (relay ci)) = [bs "a"; bs "b"] /\
+  snd (relay ci) = mkcview [(bs "h", [bs "v"])] [bs "r"] [(bs "t", [[]])] 5 (bs "gone").
+Proof. exact relay_transparent_nonvacuous. Qed.
+Print Assumptions C16_relay_transparent_nonvacuous.
+
+(* mechanism lemma (what the property's "whenever it sends at least one message" allows for):
+   without a message from the backend its headers are not forwarded *)
+Theorem C16_relay_no_message_no_header : forall ci, sc_msgs (ci_script ci) = [] -> cv_hdr (snd (relay ci)) = [].
+Proof. exact relay_no_message_no_header. Qed.
+Print Assumptions C16_relay_no_message_no_header.
+
+(* unfolding lemma: a routed call is the relay *)
 Theorem C16_routed_call_relayed : forall t ng ci p ts,
   ci_upath ci = Some p -> lookup t ng (dsthost (ci_md ci)) p = Some ts ->
   call_outcome t ng ci = (Some (ts, fst (relay ci)), snd (relay ci)).
@@ -198,6 +215,7 @@ Print Assumptions C16_sequential_get_no_leak.
    caller's request, and the backend's response), proxy.grpcmaxtxmsgsize what it sends to the
    caller.  A request within Rx reaches the backend whatever Tx is; a call whose request is
    within Rx and whose response is within both limits is relayed with status OK. *)
+(* (mechanism lemmas about the three-line relay_sized; limits are not a clause of the property) *)
 Theorem C16_relay_within_limits : forall rx tx req resp,
   req <= rx -> resp <= tx -> resp <= rx -> relay_sized rx tx req resp = mksized true true 0.
 Proof. exact relay_within_limits. Qed.
@@ -256,3 +274,85 @@ Theorem C16_concurrent_gets_nonvacuous : forall u,
   snd r = [GDone 0; GDone 0] /\ p_pool (fst r) = [(u, 0)] /\ p_shut (fst r) = [1] /\ count_dials (fst r) u = 2.
 Proof. exact concurrent_gets_nonvacuous. Qed.
 Print Assumptions C16_concurrent_gets_nonvacuous.
+
+(* The history machine of the theorems above ([run] over Call / SetTable / CleanupTick /
+   ConnShutdown) acts on the pool exactly as the sequence of Get / SetTable / tick / shutdown
+   operations it resolves to ([p_run]): the operations the correspondence run executes on the
+   real pool (CPool) and, through [run] itself, on the real proxy (CHistory). *)
+Theorem C16_run_is_pool_run : forall ng ops s,
+  abs_state (run ng s ops) = p_run (abs_state s) (run_pops ng s ops).
+Proof. exact run_sim. Qed.
+Print Assumptions C16_run_is_pool_run.
+
+(* A matching route exists -> the call is routed (C03_lookup_complete carried over to the gRPC
+   table: lower-case distinct keys, every route with a target, outside C03's region 6). *)
+Theorem C16_lookup_complete : forall t noglob host path c,
+  Fabio.Proofs.Lookup.wf_keys (to_c03 t) -> NoDup (map fst t) -> table_domain t = true ->
+  Fabio.Model.Lookup.F_C03_gobwas_overlap noglob false Fabio.Model.Lookup.MPrefix (to_c03 t) host path = false ->
+  In c (Fabio.Model.Lookup.all_routes (to_c03 t)) ->
+  Fabio.Model.Lookup.is_candidate noglob false Fabio.Model.Lookup.MPrefix host path c = true ->
+  lookup t noglob host path <> None.
+Proof. exact lookup_complete. Qed.
+Print Assumptions C16_lookup_complete.
+
+(* the hypotheses of C16_lookup_sound / C16_lookup_complete hold for a table with a glob key *)
+Theorem C16_lookup_sound_nonvacuous :
+  Fabio.Proofs.Lookup.wf_keys (to_c03 ex_gtbl) /\ NoDup (map fst ex_gtbl) /\ table_domain ex_gtbl = true /\
+  Fabio.Model.Lookup.F_C03_gobwas_overlap false false Fabio.Model.Lookup.MPrefix (to_c03 ex_gtbl) (bs "X.Beta.Example:80") (bs "/pkg.Svc/Get") = false /\
+  lookup ex_gtbl false (bs "X.Beta.Example:80") (bs "/pkg.Svc/Get") = Some [ex_v] /\
+  In (bs "*.beta.example", bs "/pkg.Svc", 0) (Fabio.Model.Lookup.all_routes (to_c03 ex_gtbl)) /\
+  Fabio.Model.Lookup.is_candidate false false Fabio.Model.Lookup.MPrefix (bs "X.Beta.Example:80") (bs "/pkg.Svc/Get") (bs "*.beta.example", bs "/pkg.Svc", 0) = true.
+Proof. exact lookup_sound_nonvacuous. Qed.
+Print Assumptions C16_lookup_sound_nonvacuous.
+
+(* For EVERY schedule of concurrent Gets for ANY targets interleaved with cleanup ticks, table
+   changes and connection shutdowns, from any well-formed state without orphans: the state
+   stays well-formed, and whenever all callers have finished every connection ever dialled is
+   pooled or closed. *)
+Theorem C16_concurrent_gets_no_orphans : forall sched urls s targets,
+  wf s -> accounted s ->
+  let st' := mrun (urls, s, map (fun u => (u, GRead)) targets) sched in
+  wf (snd (fst st')) /\
+  (forallb (fun t => g_done (snd t)) (snd st') = true ->
+   accounted (snd (fst st')) /\ forall c, orphan (snd (fst st')) c = false).
+Proof. exact concurrent_gets_no_orphans. Qed.
+Print Assumptions C16_concurrent_gets_no_orphans.
+
+(* ... and at the step at which a caller finishes it is handed the live connection pooled for
+   its target at that moment ([minv]: the invariant of those schedules) *)
+Theorem C16_concurrent_get_result : forall s l1 u p l2 c,
+  minv s (l1 ++ (u, p) :: l2) -> g_done p = false -> snd (gstep s u p) = GDone c ->
+  holds (fst (gstep s u p)) u c.
+Proof. exact concurrent_get_result. Qed.
+Print Assumptions C16_concurrent_get_result.
+
+Theorem C16_concurrent_multi_nonvacuous :
+  let a := [97] in let b := [98] in
+  let st := mrun ([a; b], p_init, [(a, GRead); (a, GRead); (b, GRead)])
+                 [MThread 0; MThread 1; MThread 2; MThread 0; MThread 1; MThread 2; MThread 0; MSetTable [b];
+                  MThread 1; MTick; MThread 2; MShutdown b]%nat in
+  snd st = [(a, GDone 0); (a, GDone 0); (b, GDone 2)] /\
+  p_pool (snd (fst st)) = [(b, 2)] /\ p_shut (snd (fst st)) = [2; 1; 0] /\
+  forallb (fun t => g_done (snd t)) (snd st) = true.
+Proof. exact concurrent_multi_nonvacuous. Qed.
+Print Assumptions C16_concurrent_multi_nonvacuous.
+
+(* F-C16-2 (open): newConnection uses TLS only when the LISTENER has a tls.Config
+   (target.URL.Scheme == "grpcs" && p.tlscfg != nil); behind a listener without TLS a grpcs://
+   target is dialled in the clear and every call routed to it fails with Unavailable although
+   the route matches and the backend is up.  Behind a TLS listener the same call is relayed. *)
+Theorem C16_plaintext_listener_tls_backend_refuted :
+  lookup ex_tls_tbl false (dsthost (ci_md ex_ci)) (bs "/pkg.Svc/Get") = Some [bs "grpcs://10.0.0.3:9443"] /\
+  call_result false [] ex_tls_tbl false ex_ci 0 = (None, code_unavailable) /\
+  call_result true [] ex_tls_tbl false ex_ci 0 = (Some (bs "grpcs://10.0.0.3:9443"), 0).
+Proof. exact plaintext_listener_tls_backend_refuted. Qed.
+Print Assumptions C16_plaintext_listener_tls_backend_refuted.
+
+(* outside that region, with the backend up: the picked target is reached and the call ends
+   with the backend's status *)
+Theorem C16_routed_call_reaches_backend_on_domain : forall tl down t ng ci p ts k u,
+  ci_upath ci = Some p -> lookup t ng (dsthost (ci_md ci)) p = Some ts -> nth_error ts k = Some u ->
+  mem u down = false -> plaintext_to_tls tl u = false ->
+  call_result tl down t ng ci k = (Some u, sc_code (ci_script ci)).
+Proof. exact routed_call_reaches_backend. Qed.
+Print Assumptions C16_routed_call_reaches_backend_on_domain.
